@@ -229,6 +229,7 @@ def check(payload):
     mons = {"measurements": 0}
     rows = []
     prev = None
+    disagree = None
     name = f if not g else "%s+%s" % (f, g)
     known = KNOWN_EXPONENTIAL.get(f)
     for n in payload["sizes"]:
@@ -255,7 +256,12 @@ def check(payload):
                                   % (name, std, prev["n"], n, r1, r2, rows)))
                 break
             if bad1 != bad2:
-                return {"inconclusive": "metrics disagree for %s at n=%d: %.1f vs %.1f" % (name, n, r1, r2), "violations": []}
+                # one metric over, the other just under the limit: the next doubling decides
+                disagree = "metrics disagree for %s at n=%d: %.1f vs %.1f" % (name, n, r1, r2)
+            else:
+                disagree = None
         prev = {"n": n, "new": c1, "calls": c2}
+    if disagree and not viols:
+        return {"inconclusive": disagree + " (unresolved at the largest size)", "violations": []}
     return {"violations": viols, "digests": digs, "monitors": mons, "evaluations": len(rows),
             "tally": {"family": [name]}, "sample": {"family": name, "std": std, "counts": rows}}
